@@ -450,6 +450,27 @@ func H_Conc() {
 			vrt.Assert(a.err == nil || b.err == nil, "C12.concurrent_close_two_reports", "two concurrent Close calls on one node both returned a disposal error:", a.err, "/", b.err)
 		}
 	}
+	// C09: every scope alive has an identity of its own (Scope.ID)
+	{
+		ids := map[string]bool{}
+		note := func(sc godi.Scope) {
+			if sc == nil {
+				return
+			}
+			id := sc.ID()
+			vrt.Assert(!ids[id], "C09.duplicate_scope_id", "two scopes alive at the same time report the same ID", id)
+			ids[id] = true
+		}
+		note(shared)
+		note(child)
+		for g := 0; g < 2; g++ {
+			for _, r := range res[g] {
+				if r.err == nil && !r.panicked {
+					note(r.scope)
+				}
+			}
+		}
+	}
 	// C02: scopes handed out concurrently are scopes of their own: a scoped
 	// registration resolved in each of them (now, sequentially) yields distinct instances
 	if l1 == kit.LScoped {
